@@ -169,8 +169,9 @@ where
             .cnv_prepare_left_tmp_bytes(a_size, a_size)
             .max(self.cnv_prepare_right_tmp_bytes(b_size, b_size));
 
-        let res_dft_size =
-            normalize_input_limb_bound_worst_case(a_size + b_size, res.size(), res.base2k().as_usize(), ab_base2k.as_usize());
+        // glwe_mul_plain(_assign) takes a.size() + b.size() - cnv_offset_hi limbs for the product,
+        // where cnv_offset_hi (derived from the run-time cnv_offset) can be zero.
+        let res_dft_size = a_size + b_size;
         let lvl_2_cnv_apply: usize = self.cnv_apply_dft_tmp_bytes(cnv_offset, res_dft_size, a_size, b_size);
 
         let lvl_2_res_dft: usize = self.bytes_of_vec_znx_dft(1, res_dft_size);
